@@ -4,4 +4,4 @@ Require Import ExtrOcamlBasic.
 From Verif Require Import MemBuf.Model MemBuf.Art MemBuf.Batched MemBuf.ProofsBatchedL0 MemBuf.BatchedUse MemBuf.FlagPreds.
 Extraction Language OCaml.
 Extraction "membuf_model.ml"
-  Z.of_N init0 init1 step0 step1 step01 flag_op_of_index reg1 wseq1 sseq1 stages1 log1 lex_cmp is_mutator unlimited insert_root lookup keys_of_tree nchildren kind_of seek_ge keys1 batched snapshot0 bopen1 bnext1 preds_word seek_first.
+  Z.of_N init0 init1 step0 step1 step01 flag_op_of_index reg1 wseq1 sseq1 stages1 log1 lex_cmp is_mutator unlimited insert_root lookup keys_of_tree nchildren kind_of seek_ge keys1 batched snapshot0 bopen1 bnext1 preds_word seek_first range_leaves.
